@@ -59,6 +59,7 @@ move_window(lzma_mf *mf)
 
 	memmove(mf->buffer, mf->buffer + move_offset, move_size);
 
+	VERIF_VISIT(VERIF_D_LZ_ENC, VERIF_LZE_MOVE_WINDOW);
 	mf->offset += move_offset;
 	mf->read_pos -= move_offset;
 	mf->read_limit -= move_offset;
@@ -148,6 +149,7 @@ fill_window(lzma_coder *coder, const lzma_allocator *allocator,
 
 		// Call the skip function directly instead of using
 		// mf_skip(), since we don't want to touch mf->read_ahead.
+		VERIF_VISIT(VERIF_D_LZ_ENC, VERIF_LZE_PENDING_REPLAY);
 		coder->mf.skip(&coder->mf, pending);
 	}
 
@@ -393,6 +395,10 @@ lz_encoder_init(lzma_mf *mf, const lzma_allocator *allocator,
 	// that match finder needs to be normalized more often, which may
 	// hurt performance with huge dictionaries.
 	mf->offset = mf->cyclic_size;
+#ifdef TUKAANI_PROJECT_XZ_VERIF
+	// See verif_hooks.h. Zero by default.
+	mf->offset += lzma_verif_mf_offset_bias;
+#endif
 	mf->read_pos = 0;
 	mf->read_ahead = 0;
 	mf->read_limit = 0;
